@@ -7,7 +7,7 @@ _perf = time.perf_counter
 
 
 def minimize(scenario: dict, tape_values: list, run, vclass: str, simplify=None,
-             max_runs: int = 200, max_s: float = 60.0):
+             max_runs: int = 200, max_s: float = 60.0, group_by_site: bool = False):
     """run(scenario, tape_values) -> (set_of_violation_classes, used_tape_values).
 
     Returns (scenario, tape_values, n_runs).  `tape_values` are [site, n, v] triples;
@@ -48,9 +48,30 @@ def minimize(scenario: dict, tape_values: list, run, vclass: str, simplify=None,
     if ok:
         return scenario, [], runs
 
-    # 3. ddmin over non-zero tape entries
     def nz(tv):
         return [i for i, x in enumerate(tv) if x[2]]
+
+    # 2b. zero all draws of one site (e.g. every duration draw of one parallel() call) at once
+    if group_by_site:
+        sites = {}
+        for i in nz(tv):
+            sites.setdefault(tv[i][0], []).append(i)
+        for site in sorted(sites, key=lambda s: -len(sites[s])):
+            if runs >= max_runs or _perf() - t0 > max_s:
+                break
+            cand = [list(x) for x in tv]
+            hit = False
+            for x in cand:
+                if x[0] == site and x[2]:
+                    x[2] = 0
+                    hit = True
+            if not hit:
+                continue
+            ok, used = still_fails(scenario, cand)
+            if ok:
+                tv = strip(used)
+
+    # 3. ddmin over non-zero tape entries
 
     chunk = max(1, len(nz(tv)) // 2)
     while chunk >= 1 and runs < max_runs and _perf() - t0 <= max_s:
